@@ -52,12 +52,16 @@ func cmdWorker(cfg runConfig) int {
 	i := newInterpreter(lh)
 	solver = NewSolver(cfg.Solver, cfg.TimeoutMs, cfg.Seed)
 	defer solver.Close()
+	if cc := os.Getenv("GOSMT_CROSSCHECK"); cc != "" && cc != cfg.Solver {
+		solver2 = NewSolver(cc, cfg.TimeoutMs, cfg.Seed)
+		defer solver2.Close()
+	}
 	i.ensureInit(lh.pkg)
 	enc.Encode(workerResp{Ready: true})
 	in := bufio.NewReaderSize(os.Stdin, 1<<20)
 	var cur string
 	var fn *ssa.Function
-	var q0, u0 int
+	var q0, u0, cc0, cu0 int
 	var t0 time.Duration
 	var start time.Time
 	for {
@@ -82,6 +86,7 @@ func cmdWorker(cfg runConfig) int {
 			hres.SolverTimeS = (solver.solveTime - t0).Seconds()
 			hres.Unknowns = solver.unknowns - u0
 			hres.WallS = time.Since(start).Seconds()
+			hres.CrossChecks, hres.CrossUnknown = crossChecks-cc0, crossUnknown-cu0
 			for k, n := range i.stubUse {
 				hres.Stubs = append(hres.Stubs, fmt.Sprintf("%s -> %s (%d calls)", k, lh.stubDoc[k], n))
 			}
@@ -101,6 +106,7 @@ func cmdWorker(cfg runConfig) int {
 				delete(i.stubUse, k)
 			}
 			q0, u0, t0, start = solver.queries, solver.unknowns, solver.solveTime, time.Now()
+			cc0, cu0 = crossChecks, crossUnknown
 		}
 		out := runPath(i, fn, req.Prefix)
 		accountPath(cur, out)
@@ -162,6 +168,8 @@ func mergeResult(dst, src *harnessResult) {
 	dst.Queries += src.Queries
 	dst.SolverTimeS += src.SolverTimeS
 	dst.Unknowns += src.Unknowns
+	dst.CrossChecks += src.CrossChecks
+	dst.CrossUnknown += src.CrossUnknown
 	if src.MaxDecisions > dst.MaxDecisions {
 		dst.MaxDecisions = src.MaxDecisions
 	}
